@@ -1,4 +1,4 @@
 From Coq Require Extraction.
 From Coq Require Import ExtrOcamlBasic.
 From Verif.C09 Require Import Model.
-Extraction "c09_ext.ml" run agree srv_init spec_init impl_step spec_step.
+Extraction "c09_ext.ml" run agree hist_ok srv_init spec_init impl_step spec_step.
